@@ -707,7 +707,13 @@ impl TransportManager {
         {
             Protocol::Tcp(_) => match protocol_stack.next() {
                 #[cfg(feature = "websocket")]
-                Some(Protocol::Ws(_)) | Some(Protocol::Wss(_)) => SupportedTransport::WebSocket,
+                Some(Protocol::Ws(_)) | Some(Protocol::Wss(_)) => match protocol_stack.next() {
+                    Some(Protocol::P2p(_)) => SupportedTransport::WebSocket,
+                    _ =>
+                        return Err(Error::TransportNotSupported(
+                            address_record.address().clone(),
+                        )),
+                },
                 Some(Protocol::P2p(_)) => SupportedTransport::Tcp,
                 _ =>
                     return Err(Error::TransportNotSupported(
@@ -719,7 +725,13 @@ impl TransportManager {
                 .next()
                 .ok_or_else(|| Error::TransportNotSupported(address_record.address().clone()))?
             {
-                Protocol::QuicV1 => SupportedTransport::Quic,
+                Protocol::QuicV1 => match protocol_stack.next() {
+                    Some(Protocol::P2p(_)) => SupportedTransport::Quic,
+                    _ =>
+                        return Err(Error::TransportNotSupported(
+                            address_record.address().clone(),
+                        )),
+                },
                 _ => {
                     tracing::debug!(target: LOG_TARGET, address = ?address_record.address(), "expected `quic-v1`");
                     return Err(Error::TransportNotSupported(
@@ -739,6 +751,15 @@ impl TransportManager {
                 ));
             }
         };
+
+        // The peer ID must be the last component. The transports parse the address only up to
+        // the first `/p2p` component, so with anything after it they would dial a different peer
+        // than the one whose state is updated below.
+        if protocol_stack.next().is_some() {
+            return Err(Error::TransportNotSupported(
+                address_record.address().clone(),
+            ));
+        }
 
         // when constructing `AddressRecord`, `PeerId` was verified to be part of the address
         let remote_peer_id =
@@ -766,12 +787,23 @@ impl TransportManager {
             };
         }
 
-        self.transports
-            .get_mut(&supported_transport)
-            .ok_or(Error::TransportNotSupported(
+        let result = match self.transports.get_mut(&supported_transport) {
+            Some(transport) => transport.dial(connection_id, address_record.address().clone()),
+            None => Err(Error::TransportNotSupported(
                 address_record.address().clone(),
-            ))?
-            .dial(connection_id, address_record.address().clone())?;
+            )),
+        };
+
+        if let Err(error) = result {
+            // The dial was not started: clear the dial record, otherwise the peer would stay in
+            // the dialing state forever and could never be dialed again.
+            if let Some(context) = self.peers.write().get_mut(&remote_peer_id) {
+                context.state.on_dial_failure(connection_id);
+            }
+
+            return Err(error);
+        }
+
         self.pending_connections.insert(connection_id, remote_peer_id);
 
         Ok(())
